@@ -7,13 +7,14 @@ package c01
 import (
 	"context"
 	"fmt"
+	"strings"
 
 	"github.com/risor-io/risor/ast"
 	"github.com/risor-io/risor/parser"
 
-	"verif/internal/astdump"
 	"sync"
 	"sync/atomic"
+	"verif/internal/astdump"
 
 	"verif/internal/diffo"
 	"verif/internal/ev"
@@ -54,7 +55,11 @@ func Pool(gen func(yield func(progen.Program)), f func(env *rt.Env, p progen.Pro
 // One runs one program through model and implementation and reports.
 func One(r *ev.Run, env *rt.Env, p progen.Program, stats *Stats) {
 	src := p.Src()
-	m := refsem.RunPost(p.Prog, p.Post, Budget)
+	budget := Budget
+	if strings.HasPrefix(p.Fam, "F10") {
+		budget = 100 * Budget // the size-boundary programs are long, not loops
+	}
+	m := refsem.RunPost(p.Prog, p.Post, budget)
 	if m.NonTerm {
 		atomic.AddInt64(&stats.NonTerm, 1)
 		return
